@@ -240,11 +240,13 @@ def _initial_tree(rng, cfg):
         # Projects refer to their own files by unprefixed names; keep one project
         # per directory so names do not collide.
         d = ["d0", "d1", "d2"][p]
+        entry_names = entry if isinstance(entry, list) else [entry]  # a project may have several entry files
         for name, text in files.items():
-            if name == entry:
+            if name in entry_names:
                 name = f"p{p}_{name}"  # entry names are unique across the projects of one tree
             tree[f"{d}/{name}"] = text
-        entries.append((d, f"p{p}_{entry}"))
+        for e in entry_names:
+            entries.append((d, f"p{p}_{e}"))
     # with one project per dir, every entry is found by searching all dirs; shadowing
     # between projects (same file name in two dirs) is deliberate and legal.
     return tree, [e for _, e in entries], ["d0", "d1", "d2"][:nproj], tags
